@@ -52,10 +52,23 @@ SpecBin(op, a, b)    == IF BinPanics(op, a, b) THEN [tag |-> "panic"]
 
 OutIsOkIv(o) == o.tag = "ok"
 
+NaNProbe == 99          \* probe code of the float types: NaN
+\* chain type "f64xb": the extreme bound positions are realised as -inf / +inf
+IsEnd(x) == (\A y \in B : x <= y) \/ (\A y \in B : y <= x)
+TouchesEnd(iv) == (HasLo(iv) /\ IsEnd(iv.lo)) \/ (HasHi(iv) /\ IsEnd(iv.hi))
+InfiniteBoundPair(e) == "ty" \in DOMAIN e /\ e.ty = "f64xb" /\ (TouchesEnd(e.a) \/ TouchesEnd(e.b))
+
 \* Failed clauses of an event (empty set = conforms).  Clause names are the
 \* coverage / reporting keys.
 Failed(e) ==
-  CASE e.op = "iv.contains" ->
+  CASE e.op = "iv.contains" /\ e.x = NaNProbe ->
+         {c \in {"C07.contains", "C07.nan_probe"} : e.res}
+    [] e.op = "iv.range_contains" /\ e.x = NaNProbe ->
+         {c \in {"C07.range_contains", "C07.nan_probe"} : e.res}
+         \cup {c \in {"C07.range_bounds"} :
+                  \/ e.sb # RangeBoundOf(e.a, "start")
+                  \/ e.eb # RangeBoundOf(e.a, "end")}
+    [] e.op = "iv.contains" ->
          {c \in {"C07.contains"} : e.res # ContainsDef(e.a, e.x)}
     [] e.op = "iv.range_contains" ->
          {c \in {"C07.range_contains"} : e.res # ContainsDef(e.a, e.x)}
@@ -70,6 +83,13 @@ Failed(e) ==
          {c \in {"C07.includes"} : e.res # IncludesDef(e.a, e.b, W)}
     [] e.op = "iv.is_included_in" ->
          {c \in {"C07.is_included_in"} : e.res # IsIncludedInDef(e.a, e.b, W)}
+    [] e.op = "iv.cmp" /\ InfiniteBoundPair(e) ->
+         \* an infinity given as an explicit bound: only the denotation-free part of C15 is judged
+         {c \in {"C15.partial_cmp", "C15.infinite_explicit_bound"} : (e.res.cmp = "eq") # IvEq(e.a, e.b)}
+         \cup {c \in {"C15.operators"} :
+                 [lt |-> e.res.lt, le |-> e.res.le, gt |-> e.res.gt,
+                  ge |-> e.res.ge, eq |-> e.res.eq] # OpsOfCmp(e.res.cmp)}
+         \cup {c \in {"C15.eq_consistent"} : e.res.eq # IvEq(e.a, e.b)}
     [] e.op = "iv.cmp" ->
          LET c0 == CmpDef(e.a, e.b, W) IN
          {c \in {"C15.partial_cmp"} : e.res.cmp # c0}
@@ -160,12 +180,15 @@ Failed(e) ==
 
 \* Clauses an event exercises (for the vacuity guard).
 Clauses(e) ==
-  CASE e.op = "iv.contains" -> {"C07.contains"}
+  CASE e.op = "iv.contains" /\ e.x = NaNProbe -> {"C07.contains", "C07.nan_probe"}
+    [] e.op = "iv.range_contains" /\ e.x = NaNProbe -> {"C07.range_contains", "C07.range_bounds", "C07.nan_probe"}
+    [] e.op = "iv.contains" -> {"C07.contains"}
     [] e.op = "iv.range_contains" -> {"C07.range_contains", "C07.range_bounds", "C07.range_contains_consistent"}
     [] e.op = "iv.intersects" -> {"C07.intersects"}
     [] e.op = "iv.includes" -> {"C07.includes"}
     [] e.op = "iv.is_included_in" -> {"C07.is_included_in"}
     [] e.op = "iv.cmp" -> {"C15.partial_cmp", "C15.operators", "C15.eq_consistent"}
+                          \cup (IF InfiniteBoundPair(e) THEN {"C15.infinite_explicit_bound"} ELSE {})
     [] e.op = "iv.make" -> {"C14.make_outcome", "C14.wellformed"}
     [] e.op = "iv.observe" -> {"C14.predicates", "C14.low_high", "C14.left_right", "C14.as_ref",
                                "C14.optpair", "C14.roundtrip"}
